@@ -41,7 +41,7 @@ NOT_MODELLED = ['reference images, parenthesised reference titles', 'raw HTML', 
 def strategy(tier):
     return st.one_of(
         st.fixed_dictionaries({'kind': st.just('model'), 'doc': gdoc.document(CFG_MMD), 'smart': st.booleans(), 'compat': st.just(False),
-                               'collide': st.sampled_from([0, 0, 1, 2]), 'nolabels': st.sampled_from([False, False, False, True]), 'mlabel': st.sampled_from([0, 1, 2, 2]), 'crlf': st.sampled_from([False, False, True])}),
+                               'collide': st.sampled_from([0, 0, 1, 2]), 'nolabels': st.sampled_from([False, False, False, True]), 'mlabel': st.sampled_from([0, 1, 2, 2]), 'crlf': st.sampled_from([False, False, True]), 'capline': st.booleans()}),
         st.fixed_dictionaries({'kind': st.just('model'), 'doc': gdoc.document(CFG_COMPAT), 'smart': st.booleans(), 'compat': st.just(True), 'crlf': st.sampled_from([False, False, True])}),
         st.fixed_dictionaries({'kind': st.just('comp'), 'doc': gdoc.document(CFG_COMP), 'smart': st.booleans(), 'compat': st.booleans()}),
     )
@@ -132,6 +132,13 @@ def check(case, ctx):
     if doc.pop('angles_escaped'):
         ctx.cls('excluded_known_angle_pair')
     doc['meta'] = None
+    if case.get('capline') and not compat:
+        # an ordinary paragraph that merely BEGINS like a caption line, right after a table: it stays a paragraph
+        for i_, b_ in enumerate(doc['blocks']):
+            if b_[0] == 'table':
+                doc['blocks'] = gdoc.fix_blocks(doc['blocks'][:i_ + 1] + [['para', [[['bare', '[zcap] plain words']]], 'nl']] + doc['blocks'][i_ + 1:])
+                ctx.cls('paragraph_starting_like_a_caption_after_table')
+                break
     nolabels = bool(case.get('nolabels')) and not compat
     ext = (EXT['COMPAT'] | EXT['NO_LABELS'] if compat else EXT['NOTES']) | (EXT['SMART'] if smart else 0) | EXT['SNIPPET'] | (EXT['NO_LABELS'] if nolabels else 0)
     src = gdoc.ser_doc(doc)
